@@ -809,6 +809,41 @@ def empty_batch_oracle(ctx, uo):
                               broken="oracle (batch shapes broadcast like NumPy), zero-size axes")
 
 
+def large_logprob_oracle(ctx, uo):
+    """log_prob on a batch of more than 2**15 (and 2**16) elements whose condition broadcasts along a NON-leading size-one axis: every
+    row block equals the same call made row by row (small batches, covered by the other units).  (Seeded change C06g processed large
+    batches in chunks and expanded the condition cyclically.)"""
+    import jax.numpy as jnp
+    import jax.random as jr
+    from flowjax.bijections import AdditiveCondition, Affine, Chain
+    from flowjax.distributions import Normal, Transformed
+
+    r = ctx.rng
+    d = Transformed(Normal(jnp.zeros(2), jnp.asarray([1.0, 0.5])), Chain([AdditiveCondition(lambda c: jnp.stack([c.sum(), c[0] - c[1]]), (2,), (2,)), Affine(jnp.ones(2), jnp.asarray([2.0, 0.7]))]))
+    for xb, cb in (((190, 180), (190, 1)), ((300, 230), (1, 230)), ((40, 30, 35), (40, 1, 35)), ((260, 260), (260, 260))):
+        X = r.normal(0, 1.5, (*xb, 2))
+        C = r.normal(0, 1.0, (*cb, 2))
+        full = np.asarray(d.log_prob(jnp.asarray(X), jnp.asarray(C)), dtype=float)
+        exp_shape = tuple(np.broadcast_shapes(xb, cb))
+        uo.count(("large-logprob", xb, cb), nontrivial=True, tag="large-logprob")
+        err = None
+        if full.shape != exp_shape:
+            err = f"returned shape {full.shape}, NumPy broadcasting gives {exp_shape}"
+        else:
+            Cb = np.broadcast_to(C, (*exp_shape, 2))
+            rows = sorted({int(v) for v in r.integers(0, xb[0], size=6)} | {0, xb[0] - 1})
+            for i in rows:
+                part = np.asarray(d.log_prob(jnp.asarray(X[i]), jnp.asarray(Cb[i])), dtype=float)
+                if not np.allclose(part, full[i], rtol=1e-12, atol=1e-12):
+                    j = np.unravel_index(int(np.argmax(np.abs(part - full[i]))), part.shape)
+                    err = f"element {(i, *map(int, j))}: {full[i][j]!r} in the large call, {part[j]!r} when row {i} is evaluated alone"
+                    break
+        if err:
+            ctx.violation(sig="large-logprob:pairing", what=f"log_prob with x batch {xb} and condition batch {cb} ({int(np.prod(exp_shape))} elements): {err}",
+                          case=dict(unit="large-logprob", x_batch=list(xb), cond_batch=list(cb)), found_input=True, unit=uo.name, expected="every element equals the unbatched call on its slice",
+                          observed=err, broken="oracle: batched element == unbatched call (batches above 2**15 elements)")
+
+
 def deep_batch_oracle(ctx, uo):
     """Batch ranks 4 and 5 with a condition batch that broadcasts through size-one axes and has fewer leading axes than x: element
     I of log_prob equals the unbatched call on (x[I], condition[projected I]) (NumPy rule).  Sampled indices.  (Seeded change C06e.)"""
@@ -921,6 +956,7 @@ def run(ctx):
     support_edge_oracle(ctx, uo)
     deep_batch_oracle(ctx, uo)
     empty_batch_oracle(ctx, uo)
+    large_logprob_oracle(ctx, uo)
 
 
 def replay(ctx, rep):
@@ -928,7 +964,7 @@ def replay(ctx, rep):
     if "spec" in c or "obligation" in c or "traceback" in c:
         print("not an input replay (spec/obligation): rebuild and re-run the check", c)
         return False
-    oracles = {"large-batch": large_batch_oracle, "support-edge": support_edge_oracle, "deep-batch": deep_batch_oracle, "empty-batch": empty_batch_oracle}
+    oracles = {"large-batch": large_batch_oracle, "support-edge": support_edge_oracle, "deep-batch": deep_batch_oracle, "empty-batch": empty_batch_oracle, "large-logprob": large_logprob_oracle}
     if c.get("unit") in oracles:  # model-free oracle units: re-run the unit (same seed) and look for the same signature
         import numpy as _np
 
